@@ -52,14 +52,20 @@ def transportsOp : List String → String
           (match s.splitOn "|" with
            | [rc, _, _] => if rc.startsWith "err:" then none else some "sendmail-failure-reported-as-success"
            | _ => some "sendmail-bad-report") else smChk s
-      let all := [stubChk stubS, stubChk stubA, check "stub-error-not-reported" (stubErr == "true"),
+      -- the recorded finding (the stub's log is a lossy String) is reported only when nothing else is wrong
+      let all := [check "stub-error-not-reported" (stubErr == "true"),
                   fileChk fileS, fileChk fileA, smChk' smS, smChk' smA]
-      match all.findSome? id with
+      let stub := [stubChk stubS, stubChk stubA].findSome? id
+      let fs := (fileS.splitOn ":").take 2
+      let fa := (fileA.splitOn ":").take 2
+      let differ := if stubS != stubA || fs != fa || smS != smA then some "sync-and-async-variants-differ" else none
+      let others := all.findSome? id
+      let stubOther := match stub with
+        | some e => if e == "stub-log-is-not-the-octets" then none else some e
+        | none => none
+      match (stubOther <|> others <|> differ <|> stub) with
       | some e => if e.startsWith "MISMATCH" then e else propfail e
-      | none =>
-        let fs := (fileS.splitOn ":").take 2
-        let fa := (fileA.splitOn ":").take 2
-        if stubS != stubA || fs != fa || smS != smA then propfail "sync-and-async-variants-differ" else "ok"
+      | none => "ok"
     | _, _ => "BADLINE"
   | l => if l.getLast? == some "PANIC" then propfail "panic" else "BADLINE"
 
